@@ -812,3 +812,67 @@ def chain_programs(cfg, start_id=1):
                                             "body": inner})
                                 pid += 1
     return out
+
+
+# ------------------------------------------------------------------------------------------------
+# C07: structured bases with ONE extra edge.  The decompiler's block recovery is written for the jump graphs the
+# compiler emits for blocks; the interesting inputs are those graphs with one more jump in them (from every
+# position to every position, conditional and unconditional): jumps into / out of / across the would-be blocks.
+
+def edge_bases():
+    R, S, T, U = var(1000), var(1001), var(1002), var(1003)
+    def c(n):
+        return call(101, [ilit(n)])
+    def cj(cond, label, kw="if"):
+        return {"k": "condjump", "kw": kw, "cond": cond, "jump": "goto", "label": label}
+    def go(label):
+        return {"k": "jump", "jump": "goto", "label": label}
+    def lab(name):
+        return {"k": "label", "name": name}
+    def inc(v):
+        return {"k": "assign", "var": v, "op": "+=", "value": ilit(1)}
+    eq = lambda v, n: binop("==", v, ilit(n))
+    lt = lambda v, n: binop("<", v, ilit(n))
+    loop1 = [lab("LH"), c(1), inc(T), cj(lt(T, 3), "LH"), c(2)]
+    nested = [lab("LA"), c(1), lab("LB"), c(2), inc(U), cj(lt(U, 2), "LB"), inc(T), cj(lt(T, 2), "LA"), c(3)]
+    ifelse = [cj(eq(R, 0), "EL"), c(1), go("EN"), lab("EL"), c(2), lab("EN"), c(3)]
+    ifelif = [cj(eq(R, 0), "E1"), c(1), go("EN"), lab("E1"), cj(eq(R, 1), "E2"), c(2), go("EN"), lab("E2"), c(3), lab("EN"), c(4)]
+    ifonly = [cj(eq(R, 0), "EN"), c(1), lab("EN"), c(2)]
+    chain_in_loop = [lab("LH"), cj(eq(R, 0), "EL"), c(1), go("EN"), lab("EL"), c(2), lab("EN"), inc(T), cj(lt(T, 3), "LH"), c(3)]
+    loop_in_if = [cj(eq(R, 0), "EL"), lab("LH"), c(1), inc(T), cj(lt(T, 2), "LH"), go("EN"), lab("EL"), c(2), lab("EN"), c(3)]
+    two_loops = [lab("LA"), c(1), inc(T), cj(lt(T, 2), "LA"), lab("LB"), c(2), inc(U), cj(lt(U, 2), "LB"), c(3)]
+    loop_break = [lab("LH"), c(1), cj(eq(R, 1), "OUT"), c(2), inc(T), cj(lt(T, 3), "LH"), lab("OUT"), c(3)]
+    inf_loop = [lab("LH"), c(1), cj(eq(R, 1), "OUT"), inc(T), go("LH"), lab("OUT"), c(2)]
+    return [("loop", loop1), ("nested", nested), ("ifelse", ifelse), ("ifelif", ifelif), ("ifonly", ifonly), ("chain-in-loop", chain_in_loop),
+            ("loop-in-if", loop_in_if), ("two-loops", two_loops), ("loop-break", loop_break), ("loop-forever-break", inf_loop)]
+
+
+def edge_programs(cfg, start_id=1):
+    S = var(1001)
+    out = []
+    pid = start_id
+    vars_ = [{"id": "r%d" % r, "ty": "i"} for r in (1000, 1001, 1002, 1003)]
+    for name, base in edge_bases():
+        n = len(base)
+        for src in range(n + 1):              # the extra jump is inserted before statement `src` (n: at the end)
+            for dst in range(n + 1):          # and goes to a new label in front of statement `dst` (n: the end)
+                for kind in ("if", "goto"):
+                    if kind == "goto" and dst <= src:
+                        continue              # an unconditional backward jump never terminates
+                    body = []
+                    for i in range(n + 1):
+                        if i == dst:
+                            body.append({"k": "label", "name": "X"})
+                        if i == src:
+                            if kind == "if":
+                                body.append({"k": "condjump", "kw": "if", "cond": binop("==", S, ilit(3)), "jump": "goto", "label": "X"})
+                                # (the condition register changes, so a backward extra jump is taken at most once)
+                                body.append({"k": "assign", "var": S, "op": "+=", "value": ilit(1)})
+                            else:
+                                body.append({"k": "jump", "jump": "goto", "label": "X"})
+                        if i < n:
+                            body.append(base[i])
+                    body.append(call(100, []))
+                    out.append({"id": pid, "cfg": cfg, "vars": vars_, "body": body, "edge": "%s:%s:%d->%d" % (name, kind, src, dst)})
+                    pid += 1
+    return out
